@@ -178,7 +178,11 @@ fn place_json<'tcx>(tcx: TyCtxt<'tcx>, body: &Body<'tcx>, p: &Place<'tcx>) -> St
                     }
                     _ => format!("{}", f.as_u32()),
                 };
-                proj.push(jobj(vec![("f", format!("{}", f.as_u32())), ("n", jstr(&name))]));
+                let adt_key = match pty.ty.kind() {
+                    ty::Adt(adt, _) => jstr(&def_key(tcx, adt.did())),
+                    _ => jnull(),
+                };
+                proj.push(jobj(vec![("f", format!("{}", f.as_u32())), ("n", jstr(&name)), ("a", adt_key)]));
             }
             ProjectionElem::Downcast(name, idx) => {
                 let n = name.map(|s| s.to_string()).unwrap_or_default();
